@@ -96,23 +96,11 @@ def _retry_cfg(maxr: int = 5, classes: Optional[List[str]] = None, export: bool 
         invariants=(invs if invs is not None else ["RetryContract"]) + (["ExportInv"] if export else []), check_deadlock=False)
 
 
-def _code_lists_raw() -> bool:
-    """Which variant of list_files does the code under test contain?  (The main model must describe the
-    code as it is: S3ListRaw = TRUE for the raw string-prefix listing, FALSE once the repair
-    findings/C20-s3-list-sibling-prefix.diff is applied.)  Decided by one probe call."""
-    from .. import fakes3
-
-    fake = fakes3.FakeS3()
-    be = fakes3.make_backend(fake, prefix="t")
-    fake.seed("t/data2/y", b"")
-    be.list_files("data")
-    return [e["prefix"] for e in fake.log if e["op"] == "list_objects_v2"][:1] == ["t/data"]
-
-
 def _run_jobs(ctx: Ctx, quick: bool) -> Dict[str, Any]:
-    raw = _code_lists_raw()
-    ctx.cov["model_variant"] = "S3ListRaw=TRUE (code lists by raw string prefix)" if raw else "S3ListRaw=FALSE (code lists '<dir>/')"
-    main_inv = "AgreeExceptSiblingLeak" if raw else "BackendsAgree"
+    # list_files lists "<dir>/" since /repo 5e63743 (finding C20-s3-list-sibling-prefix, fixed): the faithful model is
+    # S3ListRaw = FALSE.  The raw string-prefix variant stays as a companion that must violate BackendsAgree.
+    raw = False
+    main_inv = "BackendsAgree"
     bind_depth = 3 if quick else 4
     check_depth = 4 if quick else 5
     rsizes = [0, 1, 2, 5] if quick else [0, 1, 2, 5, 8]
@@ -123,7 +111,7 @@ def _run_jobs(ctx: Ctx, quick: bool) -> Dict[str, Any]:
         "storage-export": ("MC_Storage", _storage_cfg(raw, bind_depth, [main_inv, "Lockstep"], export=True), "hold", {"workers": 2 if quick else 6}),
         "storage-export-prefix-a/b/": ("MC_Storage", _storage_cfg(raw, bind_depth - 1, [main_inv, "Lockstep"], export=True, prefix="a/b/"), "hold", {"workers": 2}),
         "storage-export-no-prefix": ("MC_Storage", _storage_cfg(raw, bind_depth - 1, [main_inv, "Lockstep"], export=True, prefix=""), "hold", {"workers": 2}),
-        "storage-list-with-slash": ("MC_Storage", _storage_cfg(False, bind_depth, ["BackendsAgree", "Lockstep"]), "hold", {"workers": 2 if quick else 6}),
+        "storage-raw-prefix-only-leaks-siblings": ("MC_Storage", _storage_cfg(True, bind_depth, ["AgreeExceptSiblingLeak", "Lockstep"]), "hold", {"workers": 2 if quick else 6}),
         "storage-list-raw-prefix-defect": ("MC_Storage", _storage_cfg(True, 2, ["BackendsAgree"]), "BackendsAgree", {"workers": 1}),
         "storage-mutant-exists-lists": ("MC_Storage", _storage_cfg(False, 2, ["BackendsAgree"], always=True), "BackendsAgree", {"workers": 1}),
         "storage-limit-probe-dirs": ("MC_Storage", _storage_cfg(False, 2, ["BackendsAgree"], probe=True), "BackendsAgree", {"workers": 1}),
